@@ -124,4 +124,6 @@ def wasserstein_contract(want_matching, dtype="float"):
 
 
 def all_contracts(tier):
-    return [wasserstein_contract(False), wasserstein_contract(True), wasserstein_contract(False, "int"), wasserstein_contract(True, "int")], {}
+    return [wasserstein_contract(False), wasserstein_contract(True), wasserstein_contract(False, "int"), wasserstein_contract(True, "int"),
+            # an empty diagram handed over as [] / np.array([]) (shape (0,)) on either side
+            wasserstein_contract(False, "empty1d:dgm2"), wasserstein_contract(True, "empty1d:dgm1")], {}
